@@ -348,6 +348,45 @@ def addRouteSpec (arg : Arg α K) (v : View α K) : View α K :=
 
 end effect
 
+/-! ### the calls of the request path and of the single-route updates, with the regenerated programs -/
+
+inductive Call (α K : Type) where
+  /-- `GetRouteFromEntries` for a request that the routes selected by `mt` match -/
+  | entries (mt : α → Bool)
+  /-- `GetAllRoutesFromEntries` -/
+  | all (mt : α → Bool)
+  /-- `GetRouteFromHeaderKV(key, value)` -/
+  | kv (k : K)
+  /-- `AddRoute(r)`; `key` = the (header key, value) pair of a route with exactly one exact header matcher -/
+  | add (r : α) (key : Option K)
+  /-- `RemoveAllRoutes()` -/
+  | removeAll
+
+def progOf : Call α K → List Step
+  | .entries _ => getRouteFromEntries
+  | .all _ => getAllRoutesFromEntries
+  | .kv _ => getRouteFromHeaderKV
+  | .add _ _ => addRoute
+  | .removeAll => removeAllRoutes
+
+def argOf : Call α K → Arg α K
+  | .entries mt => { mt := mt, first := true }
+  | .all mt => { mt := mt, first := false }
+  | .kv k => { key := some k }
+  | .add r key => { route := some r, key := key }
+  | .removeAll => {}
+
+def isLookup : Call α K → Bool
+  | .add _ _ | .removeAll => false
+  | _ => true
+
+/-- what the call does to the table when it runs alone (declarative) -/
+def specOf [DecidableEq K] (c : Call α K) (v : View α K) : View α K :=
+  match c with
+  | .add r key => addRouteSpec { route := some r, key := key } v
+  | .removeAll => removeAllSpec v
+  | _ => v
+
 /-! ### the shapes that are NOT in the code (used for the machine-checked witnesses) -/
 
 /-- `GetRouteFromEntries` copying the slice header under the read lock and walking after the unlock, as the extractor renders it -/
